@@ -450,6 +450,87 @@ fn word(log: &[(bool, ReceiverEndpoint)], e: &UDPEndpoint, tsi: u64) -> String {
     log.iter().filter(|(_, r)| r.endpoint == *e && r.tsi == tsi).map(|(o, _)| if *o { 'o' } else { 'c' }).collect()
 }
 
+
+// ------------------------------------------------------------------------------------------------
+// (4) the listener registry: listeners added and removed while sessions open and close. Differential
+// oracle: every listener sees exactly the events a permanent listener sees between its registration
+// and its removal.
+
+#[derive(Serialize, Deserialize, Clone, Debug, PartialEq)]
+pub enum REv {
+    Data(u8),
+    Close(u8),
+    TickCleanup,
+    AddListener,
+    /// remove the k-th listener added by AddListener (if it is still registered)
+    RemoveListener(u8),
+}
+
+pub fn run_registry(hist: &[REv]) -> Option<(String, String)> {
+    let sessions = [(ep(1, false), 1u64), (ep(2, false), 1u64)];
+    flute::verif::clock_reset(1_000_000_000);
+    let permanent = Rc::new(RefCell::new(Vec::new()));
+    // (log, id, index in the permanent log at registration, at removal)
+    let mut extra: Vec<(Rc<RefCell<Vec<(bool, ReceiverEndpoint)>>>, u64, usize, Option<usize>)> = Vec::new();
+    let r = catch(|| {
+        let mon = Mon::new(true);
+        let mut cfg = recv_config(true);
+        cfg.session_timeout = Some(Duration::from_secs(5));
+        let mut rx = MultiReceiver::new(mon.builder(), Some(cfg), false);
+        rx.add_listener(Lst(permanent.clone()));
+        let mut now = t0();
+        let mut id = 1u32;
+        for ev in hist {
+            match ev {
+                REv::Data(s) => {
+                    id += 1;
+                    let (e, tsi) = &sessions[*s as usize];
+                    let _ = rx.push(e, &probe_packet(*tsi, id), now);
+                }
+                REv::Close(s) => {
+                    let (e, tsi) = &sessions[*s as usize];
+                    let _ = rx.push(e, &flute::verif::new_alc_pkt_close_session(&0u128, *tsi), now);
+                }
+                REv::TickCleanup => {
+                    flute::verif::clock_advance(Duration::from_secs(3));
+                    now += Duration::from_secs(3);
+                    rx.cleanup(now);
+                }
+                REv::AddListener => {
+                    let log = Rc::new(RefCell::new(Vec::new()));
+                    let lid = rx.add_listener(Lst(log.clone()));
+                    extra.push((log, lid, permanent.borrow().len(), None));
+                }
+                REv::RemoveListener(k) => {
+                    if let Some(x) = extra.get_mut(*k as usize) {
+                        if x.3.is_none() {
+                            rx.remove_listener(x.1);
+                            x.3 = Some(permanent.borrow().len());
+                        }
+                    }
+                }
+            }
+        }
+        drop(rx);
+    });
+    if let Err(p) = r {
+        return Some((format!("C18/panic/{}", panic_sig(&p)), format!("panic: {}", p)));
+    }
+    let perm = permanent.borrow();
+    let fmt = |l: &[(bool, ReceiverEndpoint)]| -> String { l.iter().map(|(o, e)| format!("{}{}", if *o { 'o' } else { 'c' }, if e.endpoint == sessions[0].0 { 0 } else { 1 })).collect::<Vec<_>>().join(" ") };
+    for (k, (log, _, from, to)) in extra.iter().enumerate() {
+        let want = &perm[*from..to.unwrap_or(perm.len())];
+        let got = log.borrow();
+        if got[..] != want[..] {
+            return Some((
+                "C18/listener/registered-listener-misses-or-gains-events".into(),
+                format!("history {:?}: listener #{} (registered while the permanent listener had seen {} events, removed at {:?}) saw [{}], the permanent listener saw [{}] in that period", hist, k, from, to, fmt(&got), fmt(want)),
+            ));
+        }
+    }
+    None
+}
+
 // ------------------------------------------------------------------------------------------------
 
 pub fn replay(v: &serde_json::Value) -> Vec<Violation> {
@@ -458,6 +539,10 @@ pub fn replay(v: &serde_json::Value) -> Vec<Violation> {
             let hist: Vec<LEv> = serde_json::from_value(v["case"]["history"].clone()).expect("history");
             let devs: Vec<u64> = serde_json::from_value(v["case"]["deviations"].clone()).expect("deviations");
             run_listener(&hist, &devs).0.into_iter().map(|(key, what)| Violation { key, what, case: v.clone() }).collect()
+        }
+        "registry" => {
+            let hist: Vec<REv> = serde_json::from_value(v["case"]["history"].clone()).expect("history");
+            run_registry(&hist).into_iter().map(|(key, what)| Violation { key, what, case: v.clone() }).collect()
         }
         "filter" => {
             let hist: Vec<FOp> = serde_json::from_value(v["case"]["history"].clone()).expect("history");
@@ -545,6 +630,41 @@ pub fn run(thorough: bool) -> i32 {
             rep.add(Violation { key, what, case: json!({"check": "listener", "case": {"history": h, "deviations": devs}}) });
         }
     }
+    // (4) listener registry
+    let ralpha = [REv::Data(0), REv::Data(1), REv::Close(0), REv::TickCleanup, REv::AddListener, REv::RemoveListener(0), REv::RemoveListener(1)];
+    let rlen = if thorough { 7 } else { 6 };
+    let mut rh: Vec<Vec<REv>> = vec![vec![]];
+    let mut rall: Vec<Vec<REv>> = Vec::new();
+    for _ in 0..rlen {
+        let mut next = Vec::new();
+        for h in &rh {
+            // at most three AddListener per history, removals only of listeners that exist
+            let adds = h.iter().filter(|e| **e == REv::AddListener).count();
+            for a in &ralpha {
+                match a {
+                    REv::AddListener if adds >= 3 => continue,
+                    REv::RemoveListener(k) if (*k as usize) >= adds => continue,
+                    _ => {}
+                }
+                let mut h2 = h.clone();
+                h2.push(a.clone());
+                next.push(h2);
+            }
+        }
+        rall.extend(next.iter().filter(|h| h.iter().any(|e| *e == REv::AddListener)).cloned());
+        rh = next;
+    }
+    let rres = par_map(&rall, |_, h| run_registry(h));
+    let mut rfound: BTreeSet<String> = BTreeSet::new();
+    for (h, r) in rall.iter().zip(rres) {
+        if let Some((key, what)) = r {
+            if rfound.insert(key.clone()) {
+                rep.add(Violation { key, what, case: json!({"check": "registry", "case": {"history": h}}) });
+            }
+        }
+    }
+    rep.cov("listener_registry_histories", rall.len() as u64);
+    rep.guard("listener_registry_histories", rall.len() as u64);
     // determinism self-check of the clock hook
     let a = run_listener(&[LEv::Data(0), LEv::TickCleanup, LEv::TickCleanup], &[2]);
     let b = run_listener(&[LEv::Data(0), LEv::TickCleanup, LEv::TickCleanup], &[2]);
